@@ -104,11 +104,15 @@ fn client_connected(
 
                 // After all clients finished disconnecting, reset the state as
                 // if promotion never happened
-                if server.connected_clients() == 0 && tracker.host_promotion_in_progress {
+                if server.connected_clients() == 0
+                    && (tracker.host_promotion_in_progress
+                        || tracker.closing_server_after_promotion)
+                {
                     info!("Promotion: Last client disconnected after a promotion to client, closing server.");
                     server.disconnect_all();
                     cmd.remove_resource::<NetcodeServerTransport>();
                     tracker.host_promotion_in_progress = false;
+                    tracker.closing_server_after_promotion = false;
                 }
             }
         }
